@@ -4,6 +4,7 @@ exception through every strict position); proofs in UH/Proofs/NatSemIO.lean.  Al
 `BigStep.Eval`, which the machine realises (`NatSemP.bigstep_sound_comp`, `bigstep_run_head`).
 -/
 import UH.Proofs.NatSemIO
+import UH.Proofs.MonadLaws
 import UH.Properties.NatSem
 namespace UH.NatSemIOP
 open UH BigStep Comp
@@ -105,5 +106,53 @@ example (s : Store) (w : World) (sp : Span) :
       Exec s w1 (.io .print [.strict (.str "b")] sp none) 1 (.strict .nil) s w2 ∧
       w2.stdout = '\n' :: 'b' :: '\n' :: 'a' :: w.stdout :=
   ⟨_, _, exec_print s w 1 sp "a", exec_print s _ 1 sp "b", rfl⟩
+
+/-! ### the monad laws of the I/O actions (C07) -/
+
+/-- **left identity**: executing `(ㄱㅅ v) ㄱㄹ f` does what evaluating `f v` and executing the action it gives does — same
+result, same final store, same final world (the judgment is deterministic, so "does what" is an equality of outcomes) -/
+theorem monad_left_identity {s w h argv sp sp' f v r s2 w2 rv s3 w3 res s4 w4}
+    (hcc : checkCallee isBuiltinName sp f false = Comp.ret ())
+    (hv : v.isIO = false)
+    (h2 : Eval s w (.comp (expand (.apply f sp [.strict v]))) h (.ok (.arg r)) s2 w2)
+    (h3 : EvalTo s2 w2 (forceArg r) h rv s3 w3)
+    (hio : rv.isIO = true)
+    (h4 : Exec s3 w3 rv h res s4 w4) :
+    Exec s w (.io .bind argv sp (some (.io .ret [.strict v] sp' none, f, none))) h res s4 w4 :=
+  exec_left_identity hcc hv h2 h3 hio h4
+
+/-- **right identity**: executing `m ㄱㄹ ㄱㅅ` does what executing `m` does, for every action `m` whose result has no
+components (a number, Boolean, string, byte string, the empty value, a function): the continuation `ㄱㅅ` — named by any
+literal that spells ㄱㅅ — evaluates nothing and performs nothing -/
+theorem monad_right_identity {s w h argv sp m v s1 w1} (n : Int)
+    (hn : encodeNumber n = [0, 6]) (hv : isAtom v = true) (hio : v.isIO = false)
+    (h1 : Exec s w m h (.strict v) s1 w1) :
+    Exec s w (.io .bind argv sp (some (m, .builtin n, none))) h (.strict v) s1 w1 :=
+  exec_right_identity n hn hv hio h1
+
+/-- **sequencing of a left-nested bind**: `(m ㄱㄹ f) ㄱㄹ g` executes `m`, then the action of `f`, then the action of `g` -/
+theorem monad_sequencing {s w h argv argv' sp sp' m f g a s1 w1 r s2 w2 rv s3 w3 b s4 w4 r' s5 w5 rv' s6 w6 res s7 w7}
+    (hf : checkCallee isBuiltinName sp' f false = Comp.ret ())
+    (hg : checkCallee isBuiltinName sp g false = Comp.ret ())
+    (h1 : Exec s w m h a s1 w1)
+    (h2 : Eval s1 w1 (.comp (expand (.apply f sp' [a]))) h (.ok (.arg r)) s2 w2)
+    (h3 : EvalTo s2 w2 (forceArg r) h rv s3 w3) (hio : rv.isIO = true)
+    (h4 : Exec s3 w3 rv h b s4 w4)
+    (h5 : Eval s4 w4 (.comp (expand (.apply g sp [b]))) h (.ok (.arg r')) s5 w5)
+    (h6 : EvalTo s5 w5 (forceArg r') h rv' s6 w6) (hio' : rv'.isIO = true)
+    (h7 : Exec s6 w6 rv' h res s7 w7) :
+    Exec s w (.io .bind argv sp (some (.io .bind argv' sp' (some (m, f, none)), g, none))) h res s7 w7 :=
+  exec_bind_bind hf hg h1 h2 h3 hio h4 h5 h6 hio' h7
+
+/-- closed instances (the premises are satisfiable): `(ㅈㄹ "a") ㄱㄹ ㄱㅅ` writes `a` and a newline and yields the empty value,
+exactly as `ㅈㄹ "a"` does; `(ㄱㅅ 7) ㄱㄹ ㄱㅅ` — left and right identity at once — yields 7 and touches nothing -/
+example (s : Store) (w : World) (sp : Span) :
+    Exec s w (.io .bind [] sp (some (.io .print [.strict (.str "a")] sp none, .builtin (-48), none))) 1 (.strict .nil) s
+      { w with stdout := '\n' :: 'a' :: w.stdout } :=
+  monad_right_identity (-48) (by decide +kernel) rfl rfl (exec_print s w 1 sp "a")
+
+example (s : Store) (w : World) (sp : Span) :
+    Exec s w (.io .bind [] sp (some (.io .ret [.strict (.int 7)] sp none, .builtin (-48), none))) 1 (.strict (.int 7)) s w :=
+  monad_right_identity (-48) (by decide +kernel) rfl rfl (exec_return s w 1 sp (.int 7) rfl)
 
 end UH.NatSemIOP
